@@ -5,7 +5,7 @@
 EXTENDS SecurityManager
 
 CONSTANT MCKinds
-MCConfigs == { [kind |-> k, in |-> 1, out |-> 1, mitm |-> FALSE, bond |-> b, oob |-> FALSE, sync |-> s] :
+MCConfigs == { [kind |-> k, in |-> 1, out |-> 1, mitm |-> FALSE, bond |-> b, oob |-> FALSE, sync |-> s, pre |-> {}] :
                k \in MCKinds, b \in BOOLEAN, s \in -1..1 }
 MCRequests == { [io |-> i, oob |-> 0, auth |-> a, maxkey |-> 16, idist |-> 0, rdist |-> 0] : i \in {1, 5}, a \in {0, 8} }
 AllProps == {"C32", "C33", "C34", "C35"}
@@ -15,5 +15,7 @@ AllOps == 0..15
 QuickOps == {1, 3, 4, 11, 12, 13}
 AllLens == 0..2
 QuickLens == {0, 1}
+NoDb == {}
+AllDb == {0}      \* slot 0 is where the bond store of a LESC pairing and the application's entries meet
 QuickConfigs == { c \in MCConfigs : c.bond /\ c.sync # 0 }
 =============================================================================
